@@ -301,8 +301,8 @@ class Check:
         harness.boot()
         items = []
         if tier == "quick":
-            plan = [(1, 2, True, ("df", "csv", "missing")), (2, 2, True, ("df", "csv", "missing")), (3, 2, True, ("df",)),
-                    (4, 1, False, ())]
+            plan = [(1, 2, True, ("df", "csv", "missing")), (2, 2, True, ("df", "csv", "missing")), (3, 1, True, ("df",)),
+                    (3, 2, False, ()), (4, 1, False, ())]
         else:
             plan = [(1, 3, True, ("df", "csv", "missing")), (2, 3, True, ("df", "csv", "missing")), (3, 2, True, ("df", "csv")),
                     (3, 3, True, ("df",)), (4, 1, True, ("df",)), (4, 2, True, ("df",)), (3, 4, False, ()), (5, 1, False, ())]
